@@ -19,7 +19,7 @@ CHECKS = {
          "Exploration: every input is decoded by RedeemNode::decode, CommitNode::decode and ConstructNode::decode under a DAG-step fuel limit (2^28), an allocation bound (96 MiB + 4096*len) and with overflow checks on; anything accepted must re-encode to exactly the input; a directed valid program whose witness has a zero-width type with 2^k tree nodes (k = 20..64) must be accepted within the same bounds; a jet node carrying an unassigned code of the family's prefix tree (computed from the encoder's tables, extended by 0..2 bits) must be rejected; each directed negative (unused node, non-canonical order, unshared duplicate, repeated hidden node, trailing byte, non-zero padding, short witness) must be rejected while its canonical twin is accepted.",
          "Trusted: model::wire (reader/writer of the bit format, cross-checked against the encoder on every valid program), the fuel hook, the counting allocator. Jet bit codes come from the crate's encode tables. The libFuzzer campaign of the thorough tier extends the raw-bytes part.",
          "DESIGN.md §6 C02"),
- "C03": ("property-based differential testing against the vendored C implementation: valid, pruned, mutated, hand-assembled non-canonical and raw (program, witness) byte pairs",
+ "C03": ("property-based differential testing against the vendored C implementation: valid, pruned, mutated, hand-assembled non-canonical and raw (program, witness) byte pairs, and serialisations of generated non-program expressions; roots compared at the root and (cmr, amr) at every node",
          "Exploration with a differential partner: acceptance by RedeemNode::decode::<Elements> must coincide with acceptance by the C pipeline (decode, type inference, witness, IHR uniqueness, 1->1) except C FailCode and C resource refusals; cmr, amr, ihr and the cost bound must be identical whenever both accept. Part of the valid/mutated population has one witness of a completely pinned type (every width 1..1400 for the SHA-256 padding of the witness hash, padded sums, equal-width arms).",
          "Trusted: libsimplicity as the reference, the FFI struct layouts declared by simplicity-sys (asserted against C by its own tests). Inputs whose declared node count cannot fit the input are not given to C (it allocates from the length prefix).",
          "DESIGN.md §6 C03"),
@@ -27,7 +27,7 @@ CHECKS = {
          "Exploration with a reference model (model::cmr): every node of every node form has the reference root; roots are invariant under witness data, disconnect branches, type inference, all conversions and the Hiding wrapper; every single edit of committed structure changes the root.",
          "Trusted: model::cmr (tags and block layout re-derived; only the SHA-256 compression function is taken from bitcoin_hashes), jet roots from the crate's tables (checked against C by C14). Policy::cmr is checked under C16.",
          "DESIGN.md §6 C09"),
- "C01": ("property-based testing: generated well-typed program IRs (Core and Elements jets) x generated witnesses; encode/decode round-trip oracle over MaxSharing post-order walks",
+ "C01": ("property-based testing: generated well-typed program IRs (Core and Elements jets) x generated witnesses, plus directed sizes beyond the generator's range (words of 2^10..2^13 bits, 10 000..18 000 encoded nodes); encode/decode round-trip oracle over MaxSharing post-order walks",
          "Exploration with a round-trip oracle: commit-time (CommitNode::decode) and redemption-time (RedeemNode::decode) round trips of generated programs with all combinator kinds, sharing swept 0..0.6, hidden roots and fail entropies re-used within a program, plus single-witness programs whose witness type is pinned completely (exact widths 1..1400, padded sums, equal-width arms); element-wise equality of combinator, payload, child indices, cmr, arrows, ihr/amr, witness bits; re-encoding reproduces both byte streams.",
          "Trusted: the IR-first generator (the inference context holds only the program's own nodes, as the quantifier requires; commit-time programs never share witness/disconnect-bearing sub-expressions). Programs produced by prune are outside this property's quantifier and are checked by C08.",
          "DESIGN.md §6 C01"),
